@@ -59,20 +59,22 @@ def anyV (p : Val → Bool) : Val → Bool
   | .cons h t => p h || anyV p t
   | _ => false
 
-/-- all elements satisfy `p` and the value is a proper chain -/
+/-- every element of the chain satisfies `p` (a value that is not a cons cell is the empty chain) -/
 def allV (p : Val → Bool) : Val → Bool
-  | .nil => true
   | .cons h t => p h && allV p t
-  | _ => false
+  | _ => true
 
 /-- The generic comparison.  Structural recursion on the left value. -/
 def rel (T : Table) : Val → Kind → Val → Bool
   | _, .skip, _ => true
+  -- auxiliary modes (a left value that is not a cons cell is the empty chain)
+  | .cons h t, .sub k, w => anyV (fun y => rel T h k y) w && rel T t (.sub k) w
+  | _, .sub _, _ => true
+  | .cons h t, .subNA, w => (h == absent || anyV (fun y => rel T h .eq y) w) && rel T t .subNA w
+  | _, .subNA, _ => true
+  | .cons h t, .cover k, y => rel T h k y || rel T t (.cover k) y
+  | _, .cover _, _ => false
   -- objects: same class family (the `isinstance` guard of every `__eq__`), then the class decides
-  | .obj _ _, .fields _ _, _ => false
-  | .obj _ _, .sub _, _ => false
-  | .obj _ _, .cover _, _ => false
-  | .obj _ _, .subNA, _ => false
   | .obj c f, _, .obj c' f' => c == c' && rel T f (T.whole c) f'
   | .obj _ _, _, _ => false
   -- chains
@@ -89,32 +91,17 @@ def rel (T : Table) : Val → Kind → Val → Bool
         && allV (fun y => rel T h .eq y || rel T t (.cover .eq) y) w
   | .cons h t, .setNA, w =>
       ((h == absent || anyV (fun y => rel T h .eq y) w) && rel T t .subNA w)
-        && allV (fun y => y == absent || rel T h .eq y || rel T t (.cover .eq) y) w
-  | .cons h t, .sub k, w => anyV (fun y => rel T h k y) w && rel T t (.sub k) w
-  | .cons h t, .subNA, w => (h == absent || anyV (fun y => rel T h .eq y) w) && rel T t .subNA w
-  | .cons h t, .cover k, y => rel T h k y || rel T t (.cover k) y
+        && allV (fun y => y == absent || (rel T h .eq y || rel T t (.cover .eq) y)) w
   | .cons _ _, _, _ => false
   -- the empty chain
-  | .nil, .sub _, _ => true
-  | .nil, .subNA, _ => true
-  | .nil, .cover _, _ => false
   | .nil, .setNE, w => w == .nil || w == .none
   | .nil, .setNA, w => allV (fun y => y == absent) w
   | .nil, _, w => w == .nil
   -- leaves
   | .none, .setNE, w => w == .nil || w == .none
-  | .none, .sub _, _ => false
-  | .none, .subNA, _ => false
-  | .none, .cover _, _ => false
   | .none, _, w => w == .none
   | .num a, .r10, .num b => round10 a == round10 b
-  | .num _, .sub _, _ => false
-  | .num _, .subNA, _ => false
-  | .num _, .cover _, _ => false
   | .num a, _, w => w == .num a
-  | .str _, .sub _, _ => false
-  | .str _, .subNA, _ => false
-  | .str _, .cover _, _ => false
   | .str s, _, w => w == .str s
 
 /-! ## Class tables -/
